@@ -89,9 +89,14 @@ PLANS["C07"] = Plan(
     bounded=[bounded.ttp_errors.harness],
     explanation="proved on count_errors: every array access in range for every plan with entries in -n..n (self-play included), "
                 "scratch arrays written before read (no dependence on earlier evaluations), stores within the scratch dtype, "
-                "result >= 0, result == 0 implies every team plays every day and all entries are mutually consistent. "
-                "bounded (exhaustive): zero-iff-feasible and value == documented per-rule count against a statement-derived "
-                "executable specification over ALL 12^6 consistent 4-team plans x constraint settings, plus random plans",
+                "result >= 0, and result == 0 implies, for every number of teams, days and every admissible setting of the "
+                "limits: every team plays every day, all entries are mutually consistent, every pairing occurs "
+                "days // (n - 1) times with home / away roles differing by at most one (scratch table = recursive home-game "
+                "count), and no home or away streak leaves its permitted range (streak state machine = recursive streak "
+                "lengths hs / aw; maximum on every day, minimum at every streak end incl. the end of the plan). "
+                "bounded (exhaustive): the separation clause, the converse (feasible implies 0) and value == documented "
+                "per-rule count against a statement-derived executable specification over ALL 12^6 consistent 4-team plans x "
+                "constraint settings, plus random plans",
     assumptions=["the error counter is treated as a mathematical integer (no int64 overflow obligation: a bound needs "
                  "n*D*limits, stated as assumption)", "E1 for the scratch dtype chosen in Errors.__init__"],
 )
@@ -543,7 +548,9 @@ META = {
             "note": "level 'other': proof for the decoder + exhaustive enumeration of the two-parameter generator",
             "technique": "contract-based deductive verification (iteration invariant 'earlier days blocked') + exhaustive enumeration"},
     "C07": {"text": "count_errors proved memory-safe, stateless w.r.t. its scratch arrays, non-negative, and zero only for plans "
-                    "in which every team plays every day consistently (all plans, all sizes); the full 'zero iff feasible' and "
+                    "in which every team plays every day consistently, every pairing occurs the prescribed number of times "
+                    "with balanced roles and no streak leaves its permitted range (all plans, all sizes, all limits); the "
+                    "separation clause, the converse direction and "
                     "the per-rule count are decided exhaustively for all 12^6 four-team plans x constraint settings against an "
                     "executable specification written from the statement; declared upper bound: known finding F4",
             "note": "level 'other': proof for the clauses a contract can carry + exhaustive bounded enumeration for the "
